@@ -165,7 +165,9 @@ func discharge(o *Obl, dir string, timeout int) {
 				sfile := strings.TrimSuffix(file, ".smt2") + ".sliced.smt2"
 				if os.WriteFile(sfile, []byte(stext), 0o644) == nil {
 					sr := runSolver(context.Background(), solvers[0], sfile, 6)
-					os.Remove(sfile)
+					if os.Getenv("GOVC_KEEP_PURE") == "" {
+						os.Remove(sfile)
+					}
 					if sr.status == "unsat" {
 						o.Seconds = time.Since(start).Seconds()
 						o.Solver = sr.solver + " (sliced assumptions)"
